@@ -1,8 +1,8 @@
 package vc
 
 import (
-	"io"
 	"fmt"
+	"io"
 	"net"
 	"os"
 	"os/exec"
